@@ -578,18 +578,24 @@ impl Snap {
     /// the snapshot delta smaller.
     pub fn recycle(mut self) -> Builder {
         let mut next_type_id = OFFSET_EXTENDED_TYPE_ID;
-        for &key in self.raw.offsets.keys() {
-            let raw_type_id = key_to_raw_type_id(key);
-            let id = key_to_id(key);
-            const _: () = assert!(TYPE_ID_EX == 0);
-            if raw_type_id != TYPE_ID_EX {
-                break;
-            }
+        // Snapshots from the network can contain type registrations outside
+        // the range of extended type IDs, these are never reused.
+        let first = key(TYPE_ID_EX, OFFSET_EXTENDED_TYPE_ID);
+        let last = key(TYPE_ID_EX, 0x7fff);
+        for &item_key in self.raw.offsets.range(first..=last).map(|(k, _)| k) {
+            let id = key_to_id(item_key);
             // Make sure we'll have space for at least 256 additional extended types.
             if id < next_type_id + 256 {
                 next_type_id = id + 1;
             }
         }
+        if usize::from(next_type_id) + MAX_SNAPSHOT_ITEMS >= 0x8000 {
+            // Not enough extended type IDs left, forget the known types.
+            next_type_id = OFFSET_EXTENDED_TYPE_ID;
+            self.extended_types.clear();
+        }
+        self.extended_types
+            .retain(|_, &mut id| OFFSET_EXTENDED_TYPE_ID <= id && id < 0x8000);
         self.raw.clear();
         for (&uuid, &raw_type_id) in &self.extended_types {
             // It fit last time, it's going to fit this time.
